@@ -25,6 +25,8 @@ type Suite struct {
 	Cases  func(tier string) int
 	// Classify decides whether a divergence is spec-level; nil = the op's S flag.
 	Classify Classifier
+	// Post is a property-level assertion over the implementation's observations alone.
+	Post PostCheck
 	// Custom suites (concurrency, commands at the wall clock, ...) run themselves.
 	Custom func(c *Ctx) []Finding
 }
@@ -138,6 +140,8 @@ func runSuite(c *Ctx, s Suite) []Finding {
 	if s.Custom != nil {
 		return s.Custom(c)
 	}
+	currentPost = s.Post
+	defer func() { currentPost = nil }()
 	var findings []Finding
 	var fmu sync.Mutex
 	addFinding := func(ops []Op, dv *Divergence) {
@@ -150,8 +154,12 @@ func runSuite(c *Ctx, s Suite) []Finding {
 			st = "S"
 		}
 		fmu.Lock()
+		note := ""
+		if sdv.MLine != sdv.Op.Line {
+			note = "line given to the model: " + sdv.MLine
+		}
 		findings = append(findings, Finding{Stratum: st, Suite: s.Name, Ops: opsLines(sops),
-			Impl: sdv.Impl, Model: sdv.Model, Signature: signature(sops, sdv)})
+			Impl: sdv.Impl, Model: sdv.Model, Signature: signature(sops, sdv), Note: note})
 		fmu.Unlock()
 	}
 
